@@ -17,7 +17,7 @@ use std::sync::{Arc, Mutex};
 
 pub fn run(tier: Tier) -> i32 {
     let rep = Report::new("C08", tier);
-    rep.set_rule("A: breadth-first exploration (to closure where it closes, else to the reported depth) of the real receiver with memories of 1 and 2 slots and slots+3 buffers of pairwise distinct lengths, ops provision(each caller-owned buffer) / new_pdu / reset / decap(each of the 43 alphabet packets: every valid kind and one packet per rejection reason); oracle: multiset(free list + contexts + caller-owned incl. result and error payloads) is invariant on every transition and has no duplicates. B: in every explored state x every packet, each memory call of the decap is made to fail in turn (1 deviation; thorough: 2) through a wrapper implementing the public trait; same equation. distinct = (op, outcome)");
+    rep.set_rule("A: breadth-first exploration (to closure where it closes, else to the reported depth) of the real receiver with memories of 1 and 2 slots and slots+3 buffers of pairwise distinct lengths, ops provision(each caller-owned buffer) / new_pdu / reset / decap(each of the 46 alphabet packets: every valid kind and one packet per rejection reason); oracle: multiset(free list + contexts + caller-owned incl. result and error payloads) is invariant on every transition and has no duplicates. B: in every explored state x every packet, each memory call of the decap is made to fail in turn (1 deviation; thorough: 2) through a wrapper implementing the public trait; same equation. distinct = (op, outcome)");
     rep.assume("buffer identity = length (pairwise distinct, content independent); free-buffer contents are normalised to zero between transitions (decap never reads them)");
     rep.assume("B: injected failures are those a contract-respecting memory may return at that call (underflow on new_pdu/new_frag, overflow handing the buffer back on provision_storage, undefined id leaving the memory unchanged on take_frag, refusal keeping the buffer inside the memory on save_frag)");
     let mut all_states: Vec<(usize, rxmodel::St)> = vec![];
